@@ -3,7 +3,10 @@
 use crate::{
     common::Prop,
     ctx::Ctx,
-    engine_pure, engine_vec,
+    engine_obs::{self, Fl, ObsCase, ObsGen},
+    engine_pure,
+    engine_thr::{self, TOp, ThrCase, ThrProg},
+    engine_vec,
     vec_gen::{self, GenCfg, Pipes, StageKind, ALL_KINDS, FILTERS, HTS, SORTS, STATIC_HT},
     vec_types::{Policy, VecCase},
 };
@@ -13,15 +16,21 @@ pub fn run_check(ctx: &mut Ctx) {
         Prop::C18 => c18(ctx),
         Prop::C05 | Prop::C06 | Prop::C07 | Prop::C08 | Prop::C09 | Prop::C10 | Prop::C11 | Prop::C12 | Prop::C13 | Prop::C14
         | Prop::C15 | Prop::C17 | Prop::C20 => vec_check(ctx),
-        p => ctx.inconclusive.push(format!("no check implemented for {}", p.name())),
+        Prop::C01 | Prop::C02 | Prop::C03 | Prop::C16 | Prop::C19 => obs_check(ctx),
+        Prop::C04 => c04(ctx),
     }
 }
 
-/// Replay one file for a property. Returns Ok(()) if the case passes.
+/// Replay one file for a property (the engine is named in the file).
 pub fn replay_one(ctx: &mut Ctx, path: &std::path::Path) {
     use crate::campaign::guarded;
     use crate::common::Stop;
     use crate::ctx::load_replay;
+    let engine = std::fs::read_to_string(path)
+        .ok()
+        .and_then(|t| serde_json::from_str::<serde_json::Value>(&t).ok())
+        .and_then(|v| v.get("engine").and_then(|e| e.as_str().map(String::from)))
+        .unwrap_or_default();
     macro_rules! go {
         ($ty:ty, $run:expr) => {{
             match load_replay::<$ty>(path) {
@@ -40,14 +49,14 @@ pub fn replay_one(ctx: &mut Ctx, path: &std::path::Path) {
             }
         }};
     }
-    match ctx.prop {
-        Prop::C18 => go!(engine_pure::PureCase, engine_pure::run),
-        Prop::C05 | Prop::C06 | Prop::C07 | Prop::C08 | Prop::C09 | Prop::C10 | Prop::C11 | Prop::C12 | Prop::C13 | Prop::C14
-        | Prop::C15 | Prop::C17 | Prop::C20 => {
-            let prop = ctx.prop;
-            go!(VecCase, |c: &VecCase| engine_vec::run(c, prop))
-        }
-        p => ctx.inconclusive.push(format!("no replay implemented for {}", p.name())),
+    let prop = ctx.prop;
+    match engine.as_str() {
+        "pure" => go!(engine_pure::PureCase, engine_pure::run),
+        "vec" => go!(VecCase, |c: &VecCase| engine_vec::run(c, prop)),
+        "obs" => go!(ObsCase, |c: &ObsCase| engine_obs::run(c, prop)),
+        "async" => go!(crate::engine_async::AsyncCase, |c: &crate::engine_async::AsyncCase| crate::engine_async::run(c, prop)),
+        "thr" => go!(ThrCase, |c: &ThrCase| engine_thr::run_repeated(c, prop, 2000)),
+        e => ctx.inconclusive.push(format!("unknown engine {e:?} in {}", path.display())),
     }
 }
 
@@ -218,4 +227,185 @@ fn vec_check(ctx: &mut Ctx) {
         ctx.random(name, "vec", &|| vec_gen::case(&cfg), &run, n);
     }
     let _ = ALL_KINDS;
+    // bounded-exhaustive sweeps
+    use crate::vec_enum as ve;
+    let deep = ctx.tier == crate::ctx::Tier::Thorough;
+    let l = if deep { 3 } else { 2 };
+    match prop {
+        Prop::C05 => {
+            let sp = ve::raw_space(l, vec![4], true);
+            let desc = format!("all sequences of <= {l} operations from a {}-operation alphabet (mutators at every position, polls, a 3-op transaction, a mid-history subscription) x initial vectors <= 2 over 2 values x 2 subscriber sets x drop/no drop, capacity 4, lag-bounded polling ({} cases)", sp.alphabet.len(), sp.size());
+            ctx.enumerated("exhaustive-small", "vec", sp.iter(), &run, Some(&desc));
+        }
+        Prop::C06 => {
+            let sp = ve::raw_space(l, vec![1, 2, 3], false);
+            let desc = format!("all sequences of <= {l} operations from a {}-operation alphabet incl. which subscriber is polled when x initial vectors <= 2 x capacities 1,2,3 x 2 subscriber sets x drop/no drop ({} cases)", sp.alphabet.len(), sp.size());
+            ctx.enumerated("exhaustive-small", "vec", sp.iter(), &run, Some(&desc));
+        }
+        Prop::C07 => {
+            let b = if deep { 3 } else { 2 };
+            let desc = format!("all transaction bodies of <= {b} operations from 14 (13 mutators/entry/traversal ops + rollback, so every cut point) x commit/drop x initial vectors <= 2 x 3 subscriber sets");
+            ctx.enumerated("exhaustive-transaction-bodies", "vec", ve::c07_cases(b), &run, Some(&desc));
+        }
+        Prop::C09 => {
+            let sp = ve::c09_space(l);
+            let desc = format!("all sequences of <= {l} operations from a {}-operation alphabet (mutators at every position, 5 limit values, single and draining polls, a transaction) x all 27 Head/Tail/Skip variants with limits 0..=3 x both flavours x initial vectors <= 3 over 2 values ({} cases); K1 trigger substituted", sp.alphabet.len(), sp.size());
+            ctx.enumerated("exhaustive-small", "vec", sp.iter(), &run, Some(&desc));
+        }
+        Prop::C10 => {
+            let sp = ve::c10_space(l);
+            let desc = format!("all sequences of <= {l} operations from a {}-operation alphabet x Filter/FilterMap x all 4 pass/fail assignments of a 2-value alphabet (so every kept/dropped pattern) x both flavours x initial vectors <= 4 x capacities 1,16 ({} cases)", sp.alphabet.len(), sp.size());
+            ctx.enumerated("exhaustive-small", "vec", sp.iter(), &run, Some(&desc));
+        }
+        Prop::C11 => {
+            let sp = ve::c11_space(l);
+            let desc = format!("all sequences of <= {l} operations from a {}-operation alphabet without Truncate (K2) x Sort/SortBy/SortByKey x both flavours x initial vectors <= 3 over 3 values with ties ({} cases)", sp.alphabet.len(), sp.size());
+            ctx.enumerated("exhaustive-small", "vec", sp.iter(), &run, Some(&desc));
+        }
+        Prop::C17 => {
+            let n = if deep { 6 } else { 5 };
+            let desc = format!("every per-element decision list (keep/set/remove/set-then-remove/stop) for vectors of <= {n} items x for_each/entries x direct/in a transaction, and every out-of-range insert/set/remove/entry call with offsets 0..=2");
+            ctx.enumerated("exhaustive-traversals", "vec", ve::c17_cases(n), &run, Some(&desc));
+        }
+        _ => {}
+    }
+}
+
+pub fn obs_phases(prop: Prop) -> Vec<(&'static str, ObsGen, u64, u64)> {
+    let d = ObsGen::default();
+    match prop {
+        Prop::C01 => vec![("sync-histories", ObsGen { w_handle: 3, ..d.clone() }, 400_000, 6_000_000)],
+        Prop::C02 => vec![("sync-many-pending", ObsGen { w_sub: 10, w_poll: 14, w_handle: 4, ..d.clone() }, 300_000, 5_000_000)],
+        Prop::C03 => vec![("sync-handles", ObsGen { w_handle: 14, w_write: 5, w_guard: 1, ..d.clone() }, 300_000, 5_000_000)],
+        Prop::C16 => vec![
+            ("both-flavours-differential", ObsGen { flavours: vec![Fl::Both], guards_pct: 0, w_handle: 6, ..d.clone() }, 200_000, 3_000_000),
+            ("async-histories", ObsGen { flavours: vec![Fl::Async], guards_pct: 0, ..d.clone() }, 100_000, 1_000_000),
+        ],
+        Prop::C19 => vec![
+            ("sync-counts", ObsGen { w_handle: 14, w_write: 3, w_sub: 10, w_guard: 1, ..d.clone() }, 200_000, 3_000_000),
+            ("async-counts", ObsGen { flavours: vec![Fl::Async], guards_pct: 0, w_handle: 14, w_write: 3, w_sub: 10, ..d.clone() }, 100_000, 2_000_000),
+        ],
+        _ => vec![],
+    }
+}
+
+fn obs_check(ctx: &mut Ctx) {
+    let prop = ctx.prop;
+    if matches!(prop, Prop::C02 | Prop::C03) {
+        thr_phases(ctx);
+    }
+    let run = move |c: &ObsCase| engine_obs::run(c, prop);
+    ctx.regress_dir("regress", "obs", &run);
+    ctx.known_findings("obs", &run);
+    for (name, cfg, q, t) in obs_phases(prop) {
+        let n = ctx.pick(q, t);
+        ctx.random(name, "obs", &|| engine_obs::case(&cfg), &run, n);
+    }
+    if prop == Prop::C16 {
+        let run = move |c: &crate::engine_async::AsyncCase| crate::engine_async::run(c, prop);
+        ctx.regress_dir("regress", "async", &run);
+        let n = ctx.pick(150_000, 2_000_000);
+        ctx.random("async-guards-held-across-calls", "async", &|| crate::engine_async::case(), &run, n);
+    }
+}
+
+// ---------------------------------------------------------------------------------------------
+// thread engine phases
+
+fn prog(owners: u8, ops: &[TOp]) -> ThrProg {
+    ThrProg { owners, ops: ops.to_vec() }
+}
+
+/// Fixed base programs whose complete schedule space (at the pause points) is enumerated.
+pub fn directed_programs(prop: Prop) -> Vec<(&'static str, ThrCase)> {
+    use TOp::*;
+    let c = |threads: Vec<ThrProg>, main_owner: bool| ThrCase { threads, main_owner, schedule: Some(vec![]), recorded: None };
+    match prop {
+        Prop::C03 => vec![
+            ("drop||drop", c(vec![prog(1, &[DropOwner]), prog(1, &[DropOwner])], false)),
+            ("drop||upgrade", c(vec![prog(1, &[DropOwner]), prog(0, &[Upgrade])], false)),
+            ("drop||upgrade;drop", c(vec![prog(1, &[DropOwner]), prog(0, &[Upgrade, DropOwner])], false)),
+            ("drop;drop||drop", c(vec![prog(2, &[DropOwner, DropOwner]), prog(1, &[DropOwner])], false)),
+            ("drop||drop||upgrade", c(vec![prog(1, &[DropOwner]), prog(1, &[DropOwner]), prog(0, &[Upgrade])], false)),
+            ("drop||upgrade||upgrade", c(vec![prog(1, &[DropOwner]), prog(0, &[Upgrade]), prog(0, &[Upgrade])], false)),
+            ("drop||poll", c(vec![prog(1, &[DropOwner]), prog(0, &[Poll, Poll])], false)),
+            ("drop||drop (main keeps an owner)", c(vec![prog(1, &[DropOwner]), prog(1, &[DropOwner, Poll])], true)),
+        ],
+        Prop::C02 => vec![
+            ("poll||set", c(vec![prog(0, &[Poll, Poll]), prog(1, &[Set])], true)),
+            ("poll||drop", c(vec![prog(0, &[Poll, Poll]), prog(1, &[DropOwner])], false)),
+            ("poll||set;drop", c(vec![prog(0, &[Poll, Poll]), prog(1, &[Set, DropOwner])], false)),
+            ("poll||poll||set", c(vec![prog(0, &[Poll, Poll]), prog(0, &[Poll, Poll]), prog(1, &[Set])], true)),
+            ("poll||set||drop", c(vec![prog(0, &[Poll, Poll]), prog(1, &[Set]), prog(1, &[DropOwner])], false)),
+            ("poll||drop||drop", c(vec![prog(0, &[Poll, Poll]), prog(1, &[DropOwner]), prog(1, &[DropOwner])], false)),
+            ("poll;poll||set;set", c(vec![prog(0, &[Poll, Poll, Poll]), prog(1, &[Set, Set])], true)),
+        ],
+        Prop::C04 => vec![
+            ("set||set", c(vec![prog(1, &[Set, Get]), prog(1, &[Set, Get])], true)),
+            ("poll||set||drop", c(vec![prog(0, &[Poll, NextNow]), prog(1, &[Set, Get]), prog(1, &[DropOwner])], true)),
+            ("set||upgrade;set", c(vec![prog(1, &[Set, DropOwner]), prog(0, &[Upgrade, Set, Get])], true)),
+        ],
+        _ => vec![],
+    }
+}
+
+fn thr_phases(ctx: &mut Ctx) {
+    use crate::campaign::{Acc, CaseReport};
+    use crate::common::Stop;
+    let prop = ctx.prop;
+    // replays
+    let run_replay = move |c: &ThrCase| engine_thr::run_repeated(c, prop, 300);
+    ctx.regress_dir("regress", "thr", &run_replay);
+    if ctx.failed() {
+        return;
+    }
+    // directed: enumerate the schedule space of every fixed program
+    let max_sched = ctx.pick(400, 5_000);
+    for (name, base) in directed_programs(prop) {
+        if ctx.failed() {
+            return;
+        }
+        let t0 = std::time::Instant::now();
+        let ex = engine_thr::explore(&base, prop, max_sched);
+        let mut acc = Acc::default();
+        for (i, rep) in ex.reports.iter().enumerate() {
+            let mut c = base.clone();
+            c.schedule = Some(vec![i as u8]);
+            let r: Result<CaseReport, Stop> = Ok(rep.clone());
+            acc.record(&serde_json::json!({"program": name, "schedule_no": i, "threads": base.threads}), &r);
+        }
+        acc.internal_errors.extend(ex.internal.iter().cloned());
+        if let Some((case, msg)) = ex.failure {
+            acc.evaluations += 1;
+            let p = ctx.write_replay("thr", &case, &msg, &format!("directed schedule enumeration of program {name}"));
+            ctx.violations.push((msg, p));
+        } else if ex.complete {
+            ctx.exhaustive_spaces.push(format!("all release orders at the pause points of program `{name}` ({} schedules)", ex.schedules));
+        }
+        ctx.absorb(&format!("directed:{name}"), acc, serde_json::json!({"kind": "directed schedule enumeration", "schedules": ex.schedules, "complete": ex.complete}), t0);
+    }
+    if ctx.failed() {
+        return;
+    }
+    // directed, generated programs: each generated (program, schedule prefix) is one execution
+    let run = move |c: &ThrCase| engine_thr::run(c, prop);
+    let n = ctx.pick(1_500, 40_000);
+    let saved = ctx.threads;
+    ctx.threads = 1; // the director is process-global
+    ctx.random("directed-generated-programs", "thr", &|| engine_thr::case(true, 3, 3), &run, n);
+    ctx.threads = saved.min(8);
+    // free-running rounds
+    let n = ctx.pick(6_000, 400_000);
+    ctx.random("free-running", "thr", &|| engine_thr::case(false, 4, 6), &run, n);
+    ctx.threads = saved;
+}
+
+fn c04(ctx: &mut Ctx) {
+    let prop = ctx.prop;
+    thr_phases(ctx);
+    // single-threaded guard exclusion: try_read / try_write while the harness holds guards
+    let run = move |c: &ObsCase| engine_obs::run(c, prop);
+    let cfg = ObsGen { guards_pct: 100, w_guard: 12, w_handle: 2, ..ObsGen::default() };
+    let n = ctx.pick(100_000, 2_000_000);
+    ctx.random("guard-exclusion-single-thread", "obs", &|| engine_obs::case(&cfg), &run, n);
 }
